@@ -235,6 +235,22 @@ impl<K: Hash + PartialEq + Eq + core::fmt::Debug> SliceCache<K> {
         removed
     }
 
+    /// Verification hook (read-only): free pointer, full flag and the `(begin, end)` ranges of
+    /// the live entries from the oldest to the newest.
+    #[cfg(bitcoin_slices_verif)]
+    pub fn verif_layout(&self) -> (usize, bool, alloc::vec::Vec<(usize, usize)>) {
+        let ranges = self
+            .insertions
+            .iter()
+            .rev()
+            .map(|k| {
+                let r = self.indexes.get(k).expect("if in insertion, must be in indexes");
+                (r.begin(), r.end())
+            })
+            .collect();
+        (self.free_pointer, self.full, ranges)
+    }
+
     #[cfg(feature = "prometheus")]
     /// Register the inner metric for hit/cache in the prometheus registry
     pub fn register_metric(&self, r: &prometheus::Registry) -> Result<(), prometheus::Error> {
